@@ -172,6 +172,9 @@ def _loop_program(path, variant, points, control, n):
     elif variant == "named-let":
         defs = ""
         start = "(let ((n %d)) (let loop ((i 0)) (note i) (if (>= i n) 'done %s)))" % (n, body("(loop (+ i 1))"))
+    elif variant == "do-loop":                   # iteration by `do` itself; has no hole for contexts
+        defs = ""
+        start = "(let ((n %d)) (do ((i 0 (+ i 1))) ((>= i n) 'done) (note i)))" % n
     elif variant == "mutual2":
         defs = ("(define (f0 i n) (note i) (if (>= i n) 'done %s)) (define (f1 i n) (note i) (if (>= i n) 'done %s))"
                 % (body("(f1 (+ i 1) n)"), body("(f0 (+ i 1) n)")))
@@ -280,6 +283,15 @@ def tail_ok_quiet(r, npoints):
         return False
 
 
+def _heap_lines(rep, procs):
+    for p in procs:
+        for l in p.log_lines("HEAPCHECK-FAIL"):
+            rep.violation({"kind": "heapcheck", "mode": l.split()[1] if len(l.split()) > 1 else "?"}, {"line": l})
+        for d in p.log_kv("HEAPCHECK-SUMMARY"):
+            rep.count("heap_checks", d.get("runs", 0))
+            rep.count("heap_objects_checked", d.get("objects", 0))
+
+
 def check(rep, tier, seed, variant="hooks"):
     rng = random.Random(seed * 7919 + 5)
     b = B.ensure(variant)
@@ -310,6 +322,7 @@ def check(rep, tier, seed, variant="hooks"):
                 add([nme], var, skel="else")
             else:
                 add([nme], var)
+    add([], "do-loop", skel="else")
     for var in VARIANTS:                                 # the bare loops (no context): both skeletons
         add([], var, skel="then")
         add([], var, skel="else")
@@ -341,6 +354,7 @@ def check(rep, tier, seed, variant="hooks"):
                 single_fail.add(p["path"][0])
     held = 0
     grow_seen = 0
+    flat_seen = 0
     per_frame = []
     for p in progs:
         _, r = results[p["id"]]
@@ -349,23 +363,33 @@ def check(rep, tier, seed, variant="hooks"):
             if judge_tail(rep, p, r, single_fail):
                 held += 1
             continue
-        # controls: growth must be visible
+        # controls: growth must be visible; a control that dies is a failed non-tail recursion of depth 10^4
         rep.case(("control", p["control"], p["path"]))
-        ok = False
+        sig = {"kind": "deep-recursion", "shape": "control-" + p["control"], "depth": "<=1e5"}
+        wit = {"form": p["form"], "expected": "a result and three increasing (stack-top) samples"}
+        if r is None or r.status in ("missing", "timeout"):
+            rep.inconc("control-no-output", p["id"])
+            continue
+        if r.status == "crash":
+            wit["detail"] = r.detail
+            rep.violation(dict(sig, mode="out-of-stack-below-maximum" if _stderr_oos(r.detail) else "crash"), wit)
+            continue
+        wit["got"] = r.text.strip()[:300]
         try:
-            obs = r.data()[0] if r is not None and r.status == "ok" else None
-            s = obs[1]
-            ok = len(s) == 3 and s[0] < s[1] < s[2]
-            if ok:
-                per_frame.append((s[2] - s[1]) / float(p["points"][2] - p["points"][1]))
+            obs = r.data()[0]
+            s3 = obs[1]
+            if not (len(s3) == 3 and all(isinstance(x, int) for x in s3)):
+                raise ValueError
         except Exception:
-            ok = False
-        if ok:
+            rep.violation(dict(sig, mode="error"), wit)
+            continue
+        if s3[0] < s3[1] < s3[2]:
             grow_seen += 1
+            per_frame.append((s3[2] - s3[1]) / float(p["points"][2] - p["points"][1]))
         else:
-            rep.inconc("control-shows-no-growth", {"control": p["control"], "path": p["path"],
-                                                   "got": r.text.strip()[:200] if r is not None else None})
-    if grow_seen == 0:
+            flat_seen += 1
+            rep.inconc("control-shows-no-growth", {"control": p["control"], "path": p["path"], "got": wit["got"]})
+    if grow_seen == 0 and flat_seen > 0:
         raise B.HarnessError("C05: no non-tail control loop showed a growing (stack-top): the probe is blind")
     rep.extra["tail_loop_programs"] = ntail
     rep.extra["tail_loops_constant"] = held
@@ -383,8 +407,15 @@ def check(rep, tier, seed, variant="hooks"):
     procs.extend(mp)
     slots = {}
     smax = None
-    for s in SHAPES:
+    for s in list(SHAPES):
         r = mres.get("m-" + s)
+        if r is not None and r.status == "crash":
+            # a 1000-deep recursion died: that is a refutation, not a measuring problem
+            rep.case(("deep-value", s, "<=1e3"))
+            rep.violation({"kind": "deep-recursion", "shape": s, "depth": "<=1e3",
+                           "mode": "out-of-stack-below-maximum" if _stderr_oos(r.detail) else "crash"},
+                          {"form": "(sh-%s 1000 stack-top)" % s, "define": SHAPES[s], "detail": r.detail})
+            continue
         try:
             d = r.data()[0]
             smax = d[0]
@@ -394,11 +425,15 @@ def check(rep, tier, seed, variant="hooks"):
             slots[s] = per
         except Exception:
             raise B.HarnessError("C05: cannot measure slots per frame for shape %s: %r" % (s, r.text if r else r))
+    shapes_ok = [s for s in SHAPES if s in slots]
+    if not shapes_ok:
+        _heap_lines(rep, procs)
+        return
     rep.extra["stack_max_slots"] = smax
     rep.extra["slots_per_frame"] = slots
     deep_cases = []
     plan = {}
-    for s in SHAPES:
+    for s in shapes_ok:
         fit = int(smax / slots[s])                    # frames that fit below the maximum (ignoring the constant part)
         okd = int(fit * 0.9)
         over = int(fit * 1.1) + 1000
@@ -450,11 +485,12 @@ def check(rep, tier, seed, variant="hooks"):
         r = R.run(b, [path], env_extra=env, timeout=120, heap="64M/2G")
         return item, r
     cli_items = []
-    for s in SHAPES:
+    for s in shapes_ok:
         if plan[s]["over"]:
             cli_items.append((s, plan[s]["over"]))
-    cli_items.append(("plus", 2000000))
-    cli_items.append(("plus", 10000000))
+    if "plus" in plan:
+        cli_items.append(("plus", 2000000))
+        cli_items.append(("plus", 10000000))
     for (s, d), r in R.pmap(cli_one, cli_items):
         procs.append(r)
         rep.case(("oos-cli", s, "just-over" if d == plan[s]["over"] else "far-over"))
@@ -477,7 +513,9 @@ def check(rep, tier, seed, variant="hooks"):
         items = [("(import (scheme base) (srfi 18))", None)] + [("(begin %s)" % x, None) for x in SHAPES.values()] \
             + [("(begin %s)" % PROBE_DEF, None)]
         body = []
-        shapes = [s for s in SHAPES if plan[s]["over"]]
+        shapes = [s for s in shapes_ok if plan[s]["over"]]
+        if not shapes:
+            return items
         for _ in range(4 if quick else 12):
             s = rs.choice(shapes)
             okd = rs.choice(plan[s]["ok"])
@@ -544,7 +582,7 @@ def check(rep, tier, seed, variant="hooks"):
 
     # ------------------------------------------------------------------ part F: green thread inside a program
     fcases = []
-    for i, s in enumerate([s for s in SHAPES if plan[s]["over"]]):
+    for i, s in enumerate([s for s in shapes_ok if plan[s]["over"]]):
         over = plan[s]["over"]
         fcases.append(("f%d" % i, s,
                        "(%%case f%d (let* ((a (thread-join! (thread-start! (make-thread (lambda () (sh-%s 1000 zero)))))) "
@@ -579,12 +617,7 @@ def check(rep, tier, seed, variant="hooks"):
                 rep.violation(dict(sig, mode="wrong-result"), wit)
 
     # ------------------------------------------------------------------ heap invariants, samples
-    for p in procs:
-        for l in p.log_lines("HEAPCHECK-FAIL"):
-            rep.violation({"kind": "heapcheck", "mode": l.split()[1] if len(l.split()) > 1 else "?"}, {"line": l})
-        for d in p.log_kv("HEAPCHECK-SUMMARY"):
-            rep.count("heap_checks", d.get("runs", 0))
-            rep.count("heap_objects_checked", d.get("objects", 0))
+    _heap_lines(rep, procs)
     for p in progs[:2] + [q for q in progs if len(q["path"]) == 2][:3] + [q for q in progs if q["control"]][:2]:
         _, r = results[p["id"]]
         rep.sample({"contexts": p["path"], "call": p["variant"], "skeleton": p["skel"], "control": p["control"], "form": p["form"],
@@ -601,3 +634,51 @@ def check(rep, tier, seed, variant="hooks"):
                        "chibi hands out-of-stack to the embedding caller (it is not delivered to Scheme handlers); "
                        "in-language observation therefore uses the process exit, a C harness and thread-join!",
                        "bodies of parameterize / dynamic-wind / guard are not tail contexts in chibi and are not claimed"]
+
+
+def replay(path):
+    """./check C05 --replay FILE: re-run the witnesses of a replay file on the current tree; exit 1 if any still fails"""
+    import json
+    with open(path) as fh:
+        d = json.load(fh)
+    b = B.ensure("hooks")
+    hdr = header(b.native("probe"))
+    env = {"CHIBI_VERIF_HEAPCHECK": 1}
+    sig = d.get("signature", {})
+    bad = 0
+    for i, w in enumerate(d.get("witnesses", [])):
+        form = w.get("form")
+        if sig.get("kind") == "tail-loop" and form:
+            r1, _p = C.run_file(b, IMPORTS, hdr, [("rp", "(%%case rp %s)" % form)], env_extra=env, timeout=300, heap="64M/1G")
+            r = r1.get("rp")
+            ok = False
+            try:
+                obs = r.data()[0]
+                ok = r.status == "ok" and obs[0] == Sym("done") and len(set(obs[1])) == 1
+            except Exception:
+                ok = False
+            print("witness %d: %s: observed %s (%s)" % (i, "constant stack now" if ok else "STILL FAILS",
+                                                         r.text.strip()[:200] if r is not None else None, r.status if r is not None else "-"))
+        elif sig.get("kind") == "deep-recursion" and form and str(sig.get("shape", "")).startswith("control-"):
+            r1, _p = C.run_file(b, IMPORTS, hdr, [("rp", "(%%case rp %s)" % form)], env_extra=env, timeout=300, heap="64M/1G")
+            r = r1.get("rp")
+            try:
+                s3 = r.data()[0][1]
+                ok = r.status == "ok" and s3[0] < s3[1] < s3[2]
+            except Exception:
+                ok = False
+            print("witness %d: %s: observed %s" % (i, "runs now" if ok else "STILL FAILS", r.text.strip()[:200] if r is not None else None))
+        elif sig.get("kind") == "deep-recursion" and form:
+            r1, _p = C.run_file(b, IMPORTS, hdr, [("rp", "(%%case rp %s)" % form)], env_extra=env, timeout=300, heap="64M/2G")
+            r = r1.get("rp")
+            ok = r is not None and r.status == "ok" and r.text.strip() == str(w.get("expected"))
+            print("witness %d: %s: observed %s" % (i, "right value now" if ok else "STILL FAILS", r.text.strip()[:200] if r is not None else None))
+        else:
+            print("witness %d: %s" % (i, json.dumps(w)[:1500]))
+            print("  (out-of-stack witnesses are re-run by `./check C05 quick`; the witness lists the program / item sequence)")
+            ok = False
+        if not ok:
+            bad += 1
+    if bad:
+        print("VIOLATION property=C05 replay=%s" % path)
+    return 1 if bad else 0
